@@ -87,7 +87,7 @@ def nontrivial(b):
 
 
 def run(ctx, replay):
-    run_queue(ctx, replay, "C01", lambda v: v not in REPORT_PREDS, DIMS_C01, {})
+    run_queue(ctx, replay, "C01", lambda v: v not in REPORT_PREDS, DIMS_C01, {"real": True})
 
 
 def run_queue(ctx, replay, pid, mine, dims, opts):
@@ -123,22 +123,36 @@ def run_queue(ctx, replay, pid, mine, dims, opts):
         behs[0]["id"] = 1
     else:
         behs = []
+        g = ctx.tlc("Queue", None, name="gen", workers=8, timeout=1800,
+                    cfg_text=cfg(["r1", "r2"], [1, 2] if thorough else [2], 2, gen=True, tail=GEN_TAIL,
+                                 dims=opts.get("gen_dims", dims)))
+        if not g["ok"]:
+            raise vlib.Infra("behaviour generation failed: %s %s" % (g["invariant"], g["error"]))
+        allb = behaviours_from(g, 1)
+        ctx.cov["exhaustive_plans"] = len(allb)
         if thorough:
-            g = ctx.tlc("Queue", None, name="gen", workers=8, timeout=1800,
-                        cfg_text=cfg(["r1", "r2"], [1, 2], 2, gen=True, tail=GEN_TAIL, dims=opts.get("gen_dims", dims)))
-            if not g["ok"]:
-                raise vlib.Infra("behaviour generation failed: %s %s" % (g["invariant"], g["error"]))
-            behs += behaviours_from(g, 1)
-            ctx.cov["exhaustive_plans"] = len(behs)
+            behs += allb
             n_sim = 6000
         else:
-            n_sim = 400
-        g = ctx.tlc("Queue", None, name="sim", workers=1, timeout=900, simulate=n_sim, depth=80,
-                    cfg_text=cfg(["r1", "r2", "r3"], [1, 2, 3], 3, gen=True, tail=GEN_TAIL, dims=dims))
-        if not g["ok"]:
-            raise vlib.Infra("behaviour simulation failed: %s %s" % (g["invariant"], g["error"]))
-        behs += behaviours_from(g, len(behs) + 1)
+            # stratified sample: one plan per shape (sequence of call results, recipient names dropped)
+            groups = {}
+            for b in allb:
+                sig = (json.dumps(b["cfg"], sort_keys=True).replace("r2", "r1"),
+                       tuple((h["a"], h.get("res", ""), tuple(sorted((h.get("st") or {}).values())), h.get("stage", ""))
+                             for h in b["hist"]))
+                groups.setdefault(sig, []).append(b)
+            sigs = sorted(groups, key=repr)
+            ctx.rng.shuffle(sigs)
+            behs += [ctx.rng.choice(groups[sg]) for sg in sigs[:opts.get("quick_plans", 450)]]
+            ctx.cov["plan_shapes_total"] = len(sigs)
+            n_sim = 150
+        g2 = ctx.tlc("Queue", None, name="sim", workers=1, timeout=900, simulate=n_sim, depth=80,
+                     cfg_text=cfg(["r1", "r2", "r3"], [1, 2, 3], 3, gen=True, tail=GEN_TAIL, dims=dims))
+        if not g2["ok"]:
+            raise vlib.Infra("behaviour simulation failed: %s %s" % (g2["invariant"], g2["error"]))
+        behs += behaviours_from(g2, len(behs) + 1)
         behs = dedup(behs)
+        opts["_allb"] = allb
         if not behs:
             raise vlib.Infra("TLC produced no behaviours")
     if opts.get("post") and not replay:
@@ -172,6 +186,40 @@ def run_queue(ctx, replay, pid, mine, dims, opts):
             del c2[k]                      # drop one event
             events = events + c1 + c2
             selftest = {900001: "corrupt-field", 900002: "drop-event"}
+
+    # ---- variant (b): the real target.smtp / target.lmtp forwarder against a misbehaving next hop ----
+    real_ids = set()
+    if opts.get("real", False):
+        pool = behs if (replay or thorough) else behs + opts.get("_allb", [])
+        cand = [b for b in pool if not b["cfg"].get("chain") and not b["cfg"].get("rw")]
+        nreal = len(cand) if replay else (1500 if thorough else 140)
+        def score(b):   # plans that only a real client/server pair can get wrong come first
+            sc = 0
+            for h in b["hist"]:
+                st = list((h.get("st") or {}).values())
+                if st and "ok" in st and any(v != "ok" for v in st):
+                    sc += 2
+                if "unspec" in st or h.get("res") == "unspec":
+                    sc += 1
+            return sc + (1 if sum(1 for h in b["hist"] if h["a"] == "TStart") >= 2 else 0)
+        cand.sort(key=lambda b: (-score(b), json.dumps(b["hist"], sort_keys=True)))
+        top = cand[:nreal // 2]
+        pick = top + vlib.sample(ctx.rng, cand[len(top):], nreal - len(top))
+        rb = []
+        for k, b in enumerate(pick):
+            nb = json.loads(json.dumps(b))
+            nb["id"] = 1000000 + k + 1
+            nb["cfg"]["utf8"] = bool(nb["cfg"].get("utf8", False))
+            rb.append(nb)
+            by_id[nb["id"]] = nb
+            real_ids.add(nb["id"])
+        ev2 = ctx.run_shards(binary, rb, test="TestReplayReal", shards=8, name="real")
+        stuck = [e for e in ev2 if e["e"] == "Stuck"]
+        if stuck:
+            raise vlib.Infra("variant (b): the spool of trace %s did not drain within the harness time-out "
+                             "(not decided: files %s)" % (stuck[0]["t"], stuck[0]["files"]))
+        events = events + ev2
+        ctx.cov["real_forwarder_traces"] = len(rb)
 
     verdicts, by_t = ctx.validate("QueueTrace", None, events, keep=KEEP,
                                   cfg_text=TRACE_CFG % dict(devs=""))
